@@ -380,6 +380,7 @@ def gen_rich(rng, P, serial=0):
 # ---- malformed / unknown attributes ---------------------------------------------------------------
 
 BAD_TIME = ["", "abc", "1", "1.s", ".5s", "1x", "5fx", "-1s", "+1s", "1 s", "1S", "00:00:01:99", "00:00:1", "0:00:01",
+            "00:60:00", "00:00:61", "01:75:00.5", "00:99:00:00", "00:00:75:00",
             "00:00:01.", "00:00:01:", "1.5.5s", "1,5s", "1e3s", "1h30m", "10ss", "s", "٣s", "12frames", "3tt", "1.0.0f"]
 BAD_COLOR = ["", "#ff", "#gg0000", "rgb(1,2)", "reddish", "#ff0000zz", "#ff00001", "rgba(1,2,3)", "rgb(255,0,0,0)",
              "rgb(300,0,0)", "ff0000",
